@@ -3,7 +3,7 @@ use crate::app::{Effect, Event, VOp};
 use crux_core::Command;
 
 fn op(tag: u32, val: u32) -> VOp {
-    VOp { o: [0, 0, 0], tag, val }
+    VOp { o: [0, 0, 0], tag, val, live: Default::default() }
 }
 
 pub fn flat() {
